@@ -309,4 +309,12 @@ def rule_totals(ck):
     c11.rule_axes(ck)
 
 
-RULES = [rule_poisson, rule_nbd, rule_catalog, rule_totals]
+def rule_precision(ck):
+    """C07-D1.double: numbers stay in the precision they were supplied in - no conversion of rates / counts / statistics to a narrower type
+    (shared reading with C05-D5.double)"""
+    from .common import rule_double_precision
+    ck.clause('D1')
+    rule_double_precision(ck, 'C07-D1.double', modules=('csep.core.poisson_evaluations', 'csep.core.binomial_evaluations', 'csep.core.forecasts'), what='the forecast total and the observed count')
+
+
+RULES = [rule_poisson, rule_nbd, rule_catalog, rule_totals, rule_precision]
